@@ -56,6 +56,7 @@ def m_str_eq2(i, p, fr, c, a, d, r): return ret(p, fr, d, r, z3.BoolVal(cstr(a[0
 def m_clone(i, p, fr, c, a, d, r): return ret(p, fr, d, r, S(a[0]))
 def m_addassign(i, p, fr, c, a, d, r):
     cell = a[0].cell; cell.v = cell.v + S(a[1]); return ret(p, fr, d, r, Opaque('unit'))
+def m_len(i, p, fr, c, a, d, r): return ret(p, fr, d, r, z3.BitVecVal(len(S(a[0]).items), 64))
 def m_isnone(i, p, fr, c, a, d, r): return ret(p, fr, d, r, z3.BoolVal(S(a[0]).discr == 0))
 def decode_tpl(tpl, vals):
     out, k, vi = '', 0, 0
@@ -77,7 +78,7 @@ MODELS.update({
     r'<Vec<AsmLine> as Deref>::deref$': m_deref_vec, r'impl \[AsmLine\]>::iter$': m_iter, r'Iter<.*AsmLine> as Iterator>::next$': m_iter_next,
     r'Iter<.*AsmLine> as Iterator>::skip$': m_skip, r'Skip<.*Iter<.*AsmLine>> as Iterator>::next$': m_iter_next,
     r'<Vec<AsmLine> as Index<usize>>::index$': m_index, r'impl \[AsmLine\]>::get::<usize>$': m_get,
-    r'Vec::<AsmLine>::split_off$': m_split_off, r'Vec::<AsmLine>::truncate$': m_truncate, r'Vec::<AsmLine>::push$': m_push,
+    r'Vec::<AsmLine>::split_off$': m_split_off, r'Vec::<AsmLine>::truncate$': m_truncate, r'Vec::<AsmLine>::push$': m_push, r'Vec::<AsmLine>::len$': m_len,
     r'Vec::<AsmLine>::append$': m_append, r'<std::string::String as PartialEq>::eq$': m_str_eq2, r'String as Clone>::clone$': m_clone,
     r'<u32 as AddAssign<&u32>>::add_assign$': m_addassign, r'Option::<&AsmLine>::is_none$': m_isnone, r'^std::fmt::format$': m_format,
 })
